@@ -125,6 +125,23 @@ def do_check(spec):
     from crosshair.options import AnalysisOptionSet
     import crosshair.core_and_libs                               # noqa: F401
 
+    # count the z3 satisfiability queries CrossHair issues and their time
+    import crosshair.statespace as _ss
+    zq = {'n': 0, 't': 0.0}
+    _orig_sat = _ss.solver_is_sat
+
+    from crosshair.tracers import NoTracing
+
+    def _counting_sat(solver, *exprs):
+        with NoTracing():           # the clock is symbolic while tracing
+            zq['n'] += 1
+            t = time.process_time()
+            try:
+                return _orig_sat(solver, *exprs)
+            finally:
+                zq['t'] += time.process_time() - t
+    _ss.solver_is_sat = _counting_sat
+
     stats = collections.Counter()
     opts  = AnalysisOptionSet(
                 per_condition_timeout=float(spec['timeout']),
@@ -140,6 +157,8 @@ def do_check(spec):
             'paths'  : int(stats.get('num_paths', 0)),
             'wall_s' : round(time.time() - t0, 3),
             'cpu_s'  : round(time.process_time() - c0, 3),
+            'queries': zq['n'],
+            'z3_s'   : round(zq['t'], 3),
             'reached': dict(api.REACHED),
             'msgs'   : [(m.state.name, m.message[:2000]) for m in msgs]}
     states = [m.state.name for m in msgs]
